@@ -94,7 +94,7 @@ impl Feat {
     pub fn affects_writer(self) -> bool {
         matches!(
             self,
-            Feat::Char8NonAscii | Feat::V1OptionalInFinal | Feat::V1BigId | Feat::V1LongParam | Feat::NonFinalUnionElem | Feat::V2MutablePrimSeqLc | Feat::V1ListEnd
+            Feat::Char8NonAscii | Feat::V1BigId | Feat::V1LongParam | Feat::NonFinalUnionElem | Feat::V2MutablePrimSeqLc | Feat::V1ListEnd
         )
     }
     pub fn affects_reader(self) -> bool {
@@ -319,6 +319,27 @@ pub fn scan(ty: &Ty, v: &Val, enc: Enc) -> Vec<Feat> {
             f.push(Feat::V2ReaderLc67);
         }
     }
+    // attribution takes the first known feature present: structural, always-failing triggers
+    // first, value-level ones last
+    const ORDER: [Feat; 16] = [
+        Feat::V1OptionalInFinal,
+        Feat::V1AppendableUnion,
+        Feat::V1NestedMutableUnion,
+        Feat::V1NestedMutableId1,
+        Feat::V2MutableDheaderIgnored,
+        Feat::V1Align8AfterParam,
+        Feat::V1BigId,
+        Feat::V1LongParam,
+        Feat::V1Float128,
+        Feat::V2IdsCollideMod16,
+        Feat::V2MutablePrimSeqLc,
+        Feat::V2ReaderLc67,
+        Feat::NonFinalUnionElem,
+        Feat::Char8NonAscii,
+        Feat::WString,
+        Feat::V1ListEnd,
+    ];
+    f.sort_by_key(|x| ORDER.iter().position(|o| o == x).unwrap_or(99));
     f
 }
 
